@@ -236,3 +236,136 @@ func VerifC05Boot() {
 	}
 	verifrt.Reach("boot-end")
 }
+
+// VerifC20Restart: the restart clause of C20 on one member: after joins and
+// removals were applied, a restart that replays the membership log, or
+// restores a compacted snapshot of it, recovers the same member list with the
+// same addresses. The member lives `lives` times on one data directory; in
+// each life it applies up to `maxchanges` joins (each optionally followed by
+// the removal of that node), optionally compacts the zero group's log after
+// any change, and is then stopped.
+func VerifC20Restart() {
+	verifrt.Preemptions(0)
+	verifrt.SchedDeterministic(true)
+	verifInstallBootHook()
+	cfg := func() *Config { return &Config{RaftNodeId: 1, DataDir: "/verif-data", Port: "6000"} }
+	want := map[uint64]string{}
+	same := func(got map[uint64]string) bool {
+		if len(got) != len(want) {
+			return false
+		}
+		for id, addr := range want {
+			if got[id] != addr {
+				return false
+			}
+		}
+		return true
+	}
+	lives := verifrt.Bound("lives", 2)
+	maxchanges := verifrt.Bound("maxchanges", 2)
+	next := uint64(2)
+	compacted := false
+	for life := 0; life < lives; life++ {
+		s := NewServer(cfg())
+		if err := s.setup(); err != nil {
+			verifrt.Assert(false, "start-succeeds")
+			return
+		}
+		verifrt.Quiesce()
+		zero := verifBootNodes[len(verifBootNodes)-1]
+		if life == 0 {
+			for id, addr := range s.clusterConn.Nodes() {
+				want[id] = addr
+			}
+		} else {
+			verifrt.Reach("restarted")
+			if compacted {
+				verifrt.Tag("after-compaction")
+			}
+			verifrt.Assert(same(s.clusterConn.Nodes()), "restart-recovers-the-same-member-list-and-addresses")
+		}
+		if life == lives-1 {
+			break
+		}
+		n := verifrt.IntIn("membership-changes", 0, maxchanges)
+		for i := 0; i < n; i++ {
+			id := next
+			next++
+			addr := "peer" + string(rune('0'+id)) + ":7000"
+			_, err := s.nodesManager.AddNode(id, addr)
+			verifrt.Assert(err == nil, "join-accepted")
+			want[id] = addr
+			verifrt.Quiesce()
+			if verifrt.Choose("then-remove", 2) == 1 {
+				verifrt.Assert(s.nodesManager.RemoveNode(id) == nil, "removal-accepted")
+				delete(want, id)
+				verifrt.Quiesce()
+			}
+			verifrt.Assert(same(s.clusterConn.Nodes()), "member-list-reflects-acknowledged-changes")
+			if verifrt.Choose("compact", 2) == 1 {
+				err := s.zeroGroup.VerifTrySnapshot(zero.idx, 0)
+				verifrt.Assert(err == nil, "membership-log-compaction-succeeds")
+				compacted = true
+			}
+		}
+		s.zeroGroup.VerifCancel()
+		verifrt.Quiesce()
+	}
+	verifrt.Reach("end")
+}
+
+// VerifC20Install: the snapshot a member produces for the zero group, when
+// installed on another member (a follower that fell behind the compacted
+// log), teaches it every listed peer with the announced address.
+func VerifC20Install() {
+	verifrt.Preemptions(0)
+	verifrt.SchedDeterministic(true)
+	verifInstallBootHook()
+	s1 := NewServer(&Config{RaftNodeId: 1, DataDir: "/verif-data-a", Port: "6000"})
+	if err := s1.setup(); err != nil {
+		verifrt.Assert(false, "start-succeeds")
+		return
+	}
+	verifrt.Quiesce()
+	n := verifrt.IntIn("joins", 1, verifrt.Bound("maxchanges", 3))
+	removed := map[uint64]bool{}
+	for i := 0; i < n; i++ {
+		id := uint64(2 + i)
+		_, err := s1.nodesManager.AddNode(id, "peer"+string(rune('0'+id))+":7000")
+		verifrt.Assert(err == nil, "join-accepted")
+		verifrt.Quiesce()
+		if id != 2 && verifrt.Choose("then-remove", 2) == 1 {
+			verifrt.Assert(s1.nodesManager.RemoveNode(id) == nil, "removal-accepted")
+			removed[id] = true
+			verifrt.Quiesce()
+		}
+	}
+	want := s1.clusterConn.Nodes()
+	data, err := s1.zeroGroup.VerifSnapshot()
+	verifrt.Assert(err == nil, "snapshot-succeeds")
+	// node 2 starts with an empty address book and receives the snapshot
+	s2 := NewServer(&Config{RaftNodeId: 2, DataDir: "/verif-data-b", Port: "7000"})
+	if err := s2.setup(); err != nil {
+		verifrt.Assert(false, "start-succeeds")
+		return
+	}
+	verifrt.Quiesce()
+	verifrt.Assert(s2.zeroGroup.VerifProcessSnapshot(data) == nil, "snapshot-install-succeeds")
+	got := s2.clusterConn.Nodes()
+	ok := true
+	for id, addr := range want {
+		if id == 2 {
+			continue // its own address comes from its configuration
+		}
+		if got[id] != addr {
+			ok = false
+		}
+	}
+	for id := range removed {
+		if _, listed := got[id]; listed {
+			ok = false
+		}
+	}
+	verifrt.Reach("installed")
+	verifrt.Assert(ok, "installed-snapshot-lists-every-member-with-its-address")
+}
